@@ -42,7 +42,7 @@ CLAIMS = {
    ref="DESIGN.md 5 C09", technique="TLC trace validation with uninterpreted HMAC terms bound by an interpretation table"),
  "C10": dict(
    text="Session.tla with the forged-security mutants in its alphabet is model-checked by TLC (AcceptOnlyAuthenticated holds for the required design; DEV_NoIncomingMacCheck reproduces the pinned behaviour and TLC returns the counterexample). Forgeries.tla (TLC) enumerates the complete matrix MAC {valid, zero, random, bit-flipped, absent} x auth flag x msgData {encrypted, clear, other key} x {Response, Report} with the required verdict; every cell is sent as the only reply to a pending get/get_many/getnext/getbulk on real sockets for {MD5, SHA-1} x {none, DES, AES}. TraceSession.tla verifies the MAC term itself (HMAC interpreted by hashlib over the octets TLC zeroed) and requires the call to keep waiting unless the reply is authentic.",
-   note="The pinned commit never verifies an incoming MAC or security level: the 19 forged Response classes are genuine defects recorded in known_findings.json (printed as KNOWN-FINDING); any other mismatch fails the check.",
+   note="The pinned commit never verified an incoming MAC or security level (19 forged Response classes delivered): repaired by fix 37facd1, listed under 'fixed' in known_findings.json; the whole matrix must now pass.",
    ref="DESIGN.md 5 C10, 7", technique="TLC model checking of Session.tla + TLC-enumerated forgery matrix + TLC trace validation"),
  "C11": dict(
    text="Privacy.tla is model-checked by TLC (PayloadIsScopedPdu, SaltFresh, NoSpuriousRefusal over all histories of sends, encrypted replies, plaintext reports, timeouts, set_keys; the pinned DES defect is reproduced by DEV_DesNoReset). Every behaviour within the bound plus a run of 90-200 unanswered requests is replayed on real DES/AES sessions (MD5/SHA-1, password/master/localized keys, varying boots/time); each emitted msgData is decrypted by the reference cipher under the independently derived key/IV and TraceSession.tla (Props={C11}) requires the plaintext to decode to exactly the scoped PDU of the request followed by < 1 block of padding; encrypted agent replies must be delivered with their exact content.",
